@@ -60,6 +60,7 @@ func (t *TransactionManager) CleanupTransaction(id string) error {
 func (t *TransactionManager) Confirm(id string) error {
 	t.tmMutex.Lock()
 	defer t.tmMutex.Unlock()
+	VerifYieldPoint("confirm:locked")
 	if t.transaction == nil {
 		return fmt.Errorf("no ongoing transaction")
 	}
@@ -78,6 +79,7 @@ func (t *TransactionManager) Confirm(id string) error {
 func (t *TransactionManager) Cancel(ctx context.Context, id string) error {
 	t.tmMutex.Lock()
 	defer t.tmMutex.Unlock()
+	VerifYieldPoint("cancel:locked")
 	if t.transaction == nil {
 		return fmt.Errorf("no ongoing transaction")
 	}
@@ -108,6 +110,7 @@ func (t *TransactionManager) GetTransaction(id string) (*Transaction, error) {
 func (t *TransactionManager) Rollback(ctx context.Context, trans *Transaction) error {
 	t.tmMutex.Lock()
 	defer t.tmMutex.Unlock()
+	VerifYieldPoint("timer:manager-locked")
 	_, err := t.rollbacker.TransactionRollback(ctx, trans, false)
 
 	t.transaction = nil
